@@ -162,7 +162,7 @@ impl Rig {
                 eprintln!("  @{} {:?}", self.world.now, p);
             }
             self.states.insert((p.state, p.sub));
-            if p.state == "UseToken" && self.last_state != "UseToken" && self.last_state != "AwaitDataResponse" {
+            if (p.state == "UseToken" || p.state == "AwaitDataResponse") && self.last_state != "UseToken" && self.last_state != "AwaitDataResponse" {
                 self.use_token_entries.push(self.world.now);
             }
             if p.state == "CheckTokenPass" && p.sub >= 2 && (self.last_state != "CheckTokenPass" || self.last_sub != p.sub) {
